@@ -670,6 +670,9 @@ def rule_cli(ctx):
                 return f.attr in senders
             if isinstance(f, ast.Subscript):
                 return is_passive_cmd(f.value, depth - 1)
+            if isinstance(f, ast.Call) and isinstance(f.func, ast.Attribute) and f.func.attr == "get" and 1 <= len(f.args) <= 2 \
+                    and (len(f.args) == 1 or (isinstance(f.args[1], ast.Constant) and f.args[1].value is None)):
+                return is_passive_cmd(f.func.value, depth - 1)   # <table>.get(name): an entry of the table (None is refused before the call, or the call raises)
             if isinstance(f, ast.Dict):
                 return bool(f.values) and all(is_passive_cmd(v, depth - 1) for v in f.values)
             if isinstance(f, ast.Name):
